@@ -49,3 +49,10 @@ func (s *Service) VerifRawPut(_ context.Context, key []byte, value []byte) error
 		return txn.Set(key, value)
 	})
 }
+
+// VerifRawDelete removes the record stored under the given key.
+func (s *Service) VerifRawDelete(_ context.Context, key []byte) error {
+	return s.store.db.Update(func(txn *badger.Txn) error {
+		return txn.Delete(key)
+	})
+}
